@@ -194,6 +194,7 @@ package common
 //@   ensures [custodian-view] KeyAtR(custodian.PublicViewKey, result, 33)
 //@   ensures [payee-spend] KeyAtR(payee.PublicSpendKey, result, 65)
 //@   ensures [payee-view] KeyAtR(payee.PublicViewKey, result, 97)
+//@   hint return [custodian-sig-local] custodianSig == crypto.SigOf(*custodianSpend, eh) && SigAtR(custodianSig, result, 289)
 //@   ensures [custodian-sig] exists eh crypto.Hash :: SigAtR(crypto.SigOf(*custodianSpend, eh), result, 289)
 // -- not stated: the analogous clauses for the payee signature at 225 and the signer signature at 161. They hold by the same
 // -- argument through one/two more appends but the solvers need 40..80 s for them (unstable), so they are left out.
